@@ -946,6 +946,8 @@ class Executor:
                 return SModule('np.linalg')
             if obj.name == 'sp' and a == 'linalg':
                 return SModule('sp.linalg')
+            if obj.name == 'np' and a == 'random':
+                return SModule('np.random')
             return ('modfunc', obj.name, a)
         if isinstance(obj, SArr):
             if a == 'shape':
